@@ -1,4 +1,5 @@
 import ChythonModel.Proofs.C03Front
+import ChythonModel.Proofs.C03Spec
 /-!
 # C03 — SMILES reader builds exactly the molecule the text denotes, rejects the rest
 
@@ -10,7 +11,7 @@ family (`list.pop()` on an empty list, `list[i]`, `dict[k]`, `''.join(None)` …
 an `Err.crash`.
 -/
 namespace ChythonModel.Props.C03
-open ChythonModel.Model.C03 ChythonModel.Gen.C03 ChythonModel.Proofs.C03
+open ChythonModel.Model.C03 ChythonModel.Gen.C03 ChythonModel.Proofs.C03 ChythonModel.Spec.Smiles
 
 /-! ## clause "never … an unrelated exception" -/
 
@@ -81,6 +82,31 @@ theorem parser_no_crash (strong : Bool) (toks : List Tok) (hne : toks ≠ []) (h
   rw [h] at this
   cases this
 
+/-! ## clause "the molecule built is the one the language defines": core grammar vs the denotational spec -/
+
+/-- For EVERY syntax tree of the core grammar of `Spec/SmilesGrammar.lean` (atoms of any kind, written bonds, direction
+    marks, dots, arbitrarily nested branches) `parser` accepts the printed token sequence and returns exactly the
+    denoted graph: the atoms in writing order (chirality mark moved to `stereo_atoms`), their aromatic/aliphatic
+    types, and the bonds of the denotation, in order. Either `strong_cycle` mode. -/
+theorem accept_sound_core (strong : Bool) (c : Chain A) :
+    ∃ st, parse strong (toToks (print c)) = .ok st ∧
+      st.atoms = (denote (·.1) c).atoms.map strip ∧ st.types = (denote (·.1) c).atoms.map tyOf ∧
+      st.bonds = (denote (·.1) c).bonds := parse_print strong c
+
+/-- a non-trivial instance: `c(=O)(.C)/N` — aromatic start, double-bonded branch, dotted branch, direction mark -/
+example : (denote (·.1) (⟨(true, { element := [67] }),
+      .side (.explicit 2) (false, { element := [79] }) .done
+        (.side .dot (false, { element := [67] }) .done
+          (.next (.dir true) (false, { element := [78] }) .done))⟩ : Chain A)).bonds = [(1, 0, 2), (3, 0, 1)] := rfl
+
+/-- Full statement of the accept/reject clause on the token level: the parser accepts a token sequence **iff** it is
+    the printing of a syntax tree (and then builds its denotation). The "only if" half is false for the forms the
+    reader accepts on purpose outside the grammar — a leading branch `(C)C` — see `Findings/C03.lean`; it is not
+    proved here (the reference reader of the harness judges that direction on every generated string). -/
+def AcceptIffInGrammar : Prop :=
+  ∀ (strong : Bool) (toks : List Tok), (∀ t ∈ toks, match t with | .cyc _ => False | .other _ _ => False | _ => True) →
+    ((∃ st, parse strong toks = .ok st) ↔ ∃ c : Chain A, toks = toToks (print c))
+
 /-! ## CXSMILES / reaction front end -/
 
 /-- fragment contraction of a reaction never indexes outside the molecule lists and never produces an empty
@@ -96,6 +122,64 @@ example : applyContract [[67], [67]] [] [] [[0, 1]] = .ok ([[67, 46, 67]], [], [
 
 /-- every charge spelling of `charge_dict` is within the range the element constructor accepts -/
 theorem charge_table_in_range : ∀ p ∈ chargeDict, -4 ≤ p.2 ∧ p.2 ≤ 4 := by decide
+
+/-- `charge_dict` agrees with the charge semantics of the language on every spelling: all 1554 strings of length ≤ 4
+    over `+ - 1 2 3 4` get the charge the standard assigns, or are absent when the standard has no meaning for them -/
+theorem charge_table_is_spec :
+    ∀ w ∈ words [43, 45, 49, 50, 51, 52] 4, lookupStr w chargeDict = specCharge w := by decide +kernel
+
+/-- and the table has no other keys -/
+theorem charge_table_keys : ∀ p ∈ chargeDict, p.1 ∈ words [43, 45, 49, 50, 51, 52] 4 := by decide +kernel
+
+/-- `not_dict[s]` is the complement of `replace_dict[s]` within the four ordinary bond orders -/
+theorem not_dict_is_complement :
+    ∀ p ∈ notDict, ∃ o, lookupNat p.1 replaceDict = some o ∧
+      ∀ x ∈ [1, 2, 3, 4], (p.2.contains x) = (x != o) := by decide +kernel
+
+/-! ### `atom_re`: the greedy matcher of the model is the regular expression
+
+`Model.matchGroups` matches the regenerated normal form of `atom_re` greedily and without backtracking. That is the
+semantics of `re.fullmatch` provided no choice point is ambiguous: wherever the pattern may either take one more
+character of a class or go on (an item with `max > min`, the decision to enter an optional group), the class must be
+disjoint from everything that can come next. `reDeterministic` checks exactly this on the regenerated pattern. -/
+
+abbrev ReItem := List (Nat × Nat) × Nat × Nat
+abbrev ReGroup := Bool × List ReItem
+
+def classesDisjoint (r1 r2 : List (Nat × Nat)) : Bool :=
+  (List.range 128).all fun c => !(inRanges c r1 && inRanges c r2)
+
+/-- classes that can start the remainder of a group: up to and including the first mandatory item; `true` if blocked -/
+def restFirsts : List ReItem → List (List (Nat × Nat)) × Bool
+  | [] => ([], false)
+  | (r, lo, _) :: tl => if lo ≥ 1 then ([r], true) else let (cs, b) := restFirsts tl; (r :: cs, b)
+
+/-- classes that can start what follows a group: first item of each later group, up to the first mandatory group -/
+def groupFirsts : List ReGroup → List (List (Nat × Nat))
+  | [] => []
+  | (opt, items) :: tl =>
+    match items with
+    | [] => groupFirsts tl
+    | (r, _, _) :: _ => if opt then r :: groupFirsts tl else [r]
+
+def itemsOK (later : List ReGroup) : List ReItem → Bool
+  | [] => true
+  | (r, lo, hi) :: tl =>
+    (if hi > lo then
+      let (cs, blocked) := restFirsts tl
+      (cs ++ (if blocked then [] else groupFirsts later)).all (classesDisjoint r)
+     else true) && itemsOK later tl
+
+def reDeterministic : List ReGroup → Bool
+  | [] => true
+  | (opt, items) :: tl =>
+    (match items with
+     | [] => false
+     | (r, lo, _) :: _ => lo ≥ 1 && r.all (fun p => p.2 < 128) &&
+        (if opt then (groupFirsts tl).all (classesDisjoint r) else true)) &&
+    itemsOK tl items && reDeterministic tl
+
+theorem atom_re_deterministic : reDeterministic atomRe = true := by decide +kernel
 
 /-- the bond symbols `_tokenize` dispatches on are exactly the keys of `replace_dict` (no KeyError) -/
 theorem bond_chars_are_keys : ∀ c ∈ bondChars, (lookupNat c replaceDict).isSome = true := by decide
